@@ -91,9 +91,83 @@ def gen_own_constraint_history(rng, multi):
     return hist
 
 
+def gen_moved_boundary_history(rng, multi):
+    """
+    A file-level since constraint; first a log whose first in-window line lies FAR into the
+    file, then (same searcher or a new one re-using the objects) the same path holds a LONGER
+    log whose first in-window line comes EARLY: whatever offset the constraint found the first
+    time says nothing about the second file.
+    """
+    day = rng.choice([4, 8])
+
+    def ts(d, sec=0):
+        return (gen.BASE + timedelta(days=d, seconds=sec)).strftime('%Y-%m-%d %H:%M:%S').encode()
+    nfiles = 2 if multi else 1
+    n_old, n_new = rng.choice([30, 60]), rng.choice([2, 5])
+    first = [ts(day - 2, k) + b' alpha old%d' % k for k in range(n_old)] + \
+        [ts(day + 1, k) + b' beta new%d' % k for k in range(n_new)]
+    m_old, m_new = rng.choice([2, 5]), rng.choice([60, 120])
+    second = [ts(day - 2, k) + b' alpha was%d' % k for k in range(m_old)] + \
+        [ts(day + 1, k) + b' beta now%d' % k for k in range(m_new)]
+    defs = [{'pats': [r'.*\b(\w+)$'], 'hint': None, 'store': True, 'type': 'simple', 'tag': 't1'}]
+    regs = [[0, k, True] for k in range(nfiles)]
+    mk = lambda lines: [{'name': f'f{k}.log', 'content': (b'\n'.join(lines) + b'\n').hex()}
+                        for k in range(nfiles)]
+    steps = [{'how': 'first', 'files': mk(first), 'regs': regs, 'new_regs': []},
+             {'how': 'repeat', 'files': mk(first), 'regs': regs, 'new_regs': []},
+             {'how': rng.choice(['rewrite', 'new_searcher']), 'files': mk(second), 'regs': regs,
+              'new_regs': []}]
+    cur = gen.BASE + timedelta(days=day + 1)
+    hist = {'defs': defs, 'steps': steps, 'global': 0,
+            'constraints': [{'current': cur.strftime('%Y-%m-%d %H:%M:%S'), 'days': 1,
+                             'matcher': 'std'}]}
+    if multi:
+        hist['max_parallel_tasks'] = 2
+    return hist
+
+
+def gen_derived_matcher_history(rng, multi):
+    """
+    Two file-level constraints with the same dates whose timestamp matcher classes are parent
+    and child (the child recognises other patterns); searcher after searcher, in one
+    interpreter, alternately with the one and the other: what a matcher class recognises does
+    not depend on which classes were used before it.
+    """
+    day = rng.choice([4, 8])
+
+    def ts(d, sec=0):
+        return (gen.BASE + timedelta(days=d, seconds=sec)).strftime('%Y-%m-%d %H:%M:%S').encode()
+
+    def br(d, sec=0):
+        return (gen.BASE + timedelta(days=d, seconds=sec)).strftime('[%d/%m/%Y %H:%M:%S]').encode()
+    nfiles = 2 if multi else 1
+    lines = [ts(day - 2, k) + b' alpha old%d' % k for k in range(3)] + \
+        [br(day - 2, 9) + b' gamma oldbr'] + \
+        [ts(day + 1, k) + b' beta new%d' % k for k in range(3)] + [br(day + 1, 9) + b' gamma newbr']
+    defs = [{'pats': [r'.*\b(\w+)$'], 'hint': None, 'store': True, 'type': 'simple', 'tag': 't1'}]
+    regs = [[0, k, True] for k in range(nfiles)]
+    files = [{'name': f'f{k}.log', 'content': (b'\n'.join(lines) + b'\n').hex()}
+             for k in range(nfiles)]
+    order = rng.choice([[0, 1, 0], [1, 0, 1], [0, 1, 1]])
+    steps = [{'how': 'first' if i == 0 else 'new_searcher', 'files': files, 'regs': regs,
+              'new_regs': [], 'global': g} for i, g in enumerate(order)]
+    cur = gen.BASE + timedelta(days=day + 1)
+    c0 = {'current': cur.strftime('%Y-%m-%d %H:%M:%S'), 'days': 1, 'matcher': 'std'}
+    hist = {'defs': defs, 'steps': steps, 'global': order[0],
+            'constraints': [c0, dict(c0, matcher='subbrk')]}
+    if multi:
+        hist['max_parallel_tasks'] = 2
+    return hist
+
+
 def gen_history(rng, tier, multi):
-    if rng.random() < 0.12:
+    r0 = rng.random()
+    if r0 < 0.07:
         return gen_own_constraint_history(rng, multi)
+    if r0 < 0.14:
+        return gen_moved_boundary_history(rng, multi)
+    if r0 < 0.2:
+        return gen_derived_matcher_history(rng, multi)
     use_ts = rng.random() < 0.5
     kind = 'std'
     nfiles = rng.choice([2, 3]) if multi else 1
